@@ -248,3 +248,555 @@ Proof.
     rewrite He. cbn [rerror_of]. right. exists (rst_with_err s' None). split; [reflexivity|].
     split; [apply post_intro; simp_st; auto; lia|]. simp_st. splits; auto.
 Qed.
+
+(* ------------------------------------------------------------------ *)
+(* remaining length                                                    *)
+
+Lemma remlen_step f pause s shift size b p : wf s -> pending s = b :: p ->
+  (exists s', remlen_loop (S f) pause s shift size = (inr (ETimeout, false), s'))
+  \/ (exists s1, post s s1 p /\
+        remlen_loop (S f) pause s shift size =
+          if b <? 128 then (inl (size + (b mod 128) * 2 ^ shift), s1)
+          else if 21 <=? shift then (inr (EHard, true), s1)
+          else remlen_loop f pause s1 (shift + 7) (size + (b mod 128) * 2 ^ shift)).
+Proof.
+  intros W P. cbn [remlen_loop].
+  set (s0 := if (len (rbuf s) =? 0) && pause then rst_arm s true else s).
+  assert (P0 : post s s0 (pending s)) by apply (post_arm_if s _ true W).
+  destruct P0 as (W0 & C0 & Pd0 & Wt0).
+  destruct (read_byte_spec s0 b p W0 ltac:(now rewrite Pd0)) as [(s' & E & Po)|(s' & E)]; rewrite E.
+  - right. exists s'. split; [|reflexivity].
+    eapply post_trans; [|exact Po]. split; auto.
+  - left. exists s'. reflexivity.
+Qed.
+
+Lemma remlen_spec pause s n p' : wf s -> bytes (pending s) ->
+  take_remlen (pending s) = Some (n, p') ->
+  (exists s', remlen_loop 5 pause s 0 0 = (inr (ETimeout, false), s'))
+  \/ (exists s', remlen_loop 5 pause s 0 0 = (inl n, s') /\ post s s' p').
+Proof.
+  intros W Hb T. unfold take_remlen in T.
+  destruct (pending s) as [|a r] eqn:P; [discriminate|].
+  assert (Ha : a < 256) by (inversion Hb; assumption).
+  assert (Hbr : bytes r) by (inversion Hb; assumption).
+  destruct (remlen_step 4 pause s 0 0 a r W P) as [L|(s1 & Po1 & E1)]; [left; exact L|].
+  rewrite E1. clear E1.
+  destruct (N.ltb_spec a 128) as [La|La].
+  { assert (Hn : n = a /\ p' = r) by (split; congruence). destruct Hn as [-> ->]. right. exists s1. split; [|exact Po1]. f_equal. f_equal.
+    change (2 ^ 0) with 1. lia. }
+  change (21 <=? 0) with false. cbv iota.
+  destruct r as [|b r]; [discriminate|].
+  assert (Hb1 : b < 256) by (inversion Hbr; assumption).
+  assert (Hbr1 : bytes r) by (inversion Hbr; assumption).
+  destruct Po1 as (W1 & C1 & P1 & Wt1).
+  destruct (remlen_step 3 pause s1 (0 + 7) (0 + a mod 128 * 2 ^ 0) b r W1 P1) as [L|(s2 & Po2 & E2)];
+    [left; exact L|].
+  rewrite E2. clear E2.
+  destruct (N.ltb_spec b 128) as [Lb|Lb].
+  { assert (Hn : n = a - 128 + 128 * b /\ p' = r) by (split; congruence). destruct Hn as [-> ->]. right. exists s2. split.
+    - f_equal. f_equal. change (2 ^ 0) with 1. change (2 ^ (0 + 7)) with 128. lia.
+    - eapply post_trans; [|exact Po2]. split; auto. }
+  change (21 <=? 0 + 7) with false. cbv iota.
+  destruct r as [|c r]; [discriminate|].
+  assert (Hc1 : c < 256) by (inversion Hbr1; assumption).
+  assert (Hbr2 : bytes r) by (inversion Hbr1; assumption).
+  destruct Po2 as (W2 & C2 & P2 & Wt2).
+  destruct (remlen_step 2 pause s2 (0 + 7 + 7) (0 + a mod 128 * 2 ^ 0 + b mod 128 * 2 ^ (0 + 7)) c r W2 P2)
+    as [L|(s3 & Po3 & E3)]; [left; exact L|].
+  rewrite E3. clear E3.
+  destruct (N.ltb_spec c 128) as [Lc|Lc].
+  { assert (Hn : n = a - 128 + 128 * (b - 128) + 16384 * c /\ p' = r) by (split; congruence). destruct Hn as [-> ->]. right. exists s3. split.
+    - f_equal. f_equal. change (2 ^ 0) with 1. change (2 ^ (0 + 7)) with 128.
+      change (2 ^ (0 + 7 + 7)) with 16384. lia.
+    - eapply post_trans; [|exact Po3]. split; auto. split; [lia|]. split; [reflexivity|lia]. }
+  change (21 <=? 0 + 7 + 7) with false. cbv iota.
+  destruct r as [|d r]; [discriminate|].
+  assert (Hd1 : d < 256) by (inversion Hbr2; assumption).
+  destruct Po3 as (W3 & C3 & P3 & Wt3).
+  destruct (remlen_step 1 pause s3 (0 + 7 + 7 + 7)
+              (0 + a mod 128 * 2 ^ 0 + b mod 128 * 2 ^ (0 + 7) + c mod 128 * 2 ^ (0 + 7 + 7)) d r W3 P3)
+    as [L|(s4 & Po4 & E4)]; [left; exact L|].
+  rewrite E4. clear E4.
+  destruct (N.ltb_spec d 128) as [Ld|Ld]; [|discriminate].
+  assert (Hn : n = a - 128 + 128 * (b - 128) + 16384 * (c - 128) + 2097152 * d /\ p' = r) by (split; congruence). destruct Hn as [-> ->]. right. exists s4. split.
+  - f_equal. f_equal. change (2 ^ 0) with 1. change (2 ^ (0 + 7)) with 128.
+    change (2 ^ (0 + 7 + 7)) with 16384. change (2 ^ (0 + 7 + 7 + 7)) with 2097152. lia.
+  - eapply post_trans; [|exact Po4]. split; auto. split; [lia|]. split; [reflexivity|lia].
+Qed.
+
+(* a continuation bit on the fourth length byte: protocol reset, whatever follows *)
+Lemma remlen_fifth pause s a b c d r : wf s ->
+  pending s = a :: b :: c :: d :: r -> 128 <= a -> 128 <= b -> 128 <= c -> 128 <= d ->
+  (exists s', remlen_loop 5 pause s 0 0 = (inr (ETimeout, false), s'))
+  \/ (exists s', remlen_loop 5 pause s 0 0 = (inr (EHard, true), s')).
+Proof.
+  intros W P Ha Hb Hc Hd.
+  destruct (remlen_step 4 pause s 0 0 a _ W P) as [L|(s1 & Po1 & E1)]; [left; exact L|].
+  rewrite E1. clear E1. destruct (N.ltb_spec a 128); [lia|].
+  change (21 <=? 0) with false. cbv iota. destruct Po1 as (W1 & C1 & P1 & Wt1).
+  destruct (remlen_step 3 pause s1 (0 + 7) (0 + a mod 128 * 2 ^ 0) b _ W1 P1) as [L|(s2 & Po2 & E2)];
+    [left; exact L|].
+  rewrite E2. clear E2. destruct (N.ltb_spec b 128); [lia|].
+  change (21 <=? 0 + 7) with false. cbv iota. destruct Po2 as (W2 & C2 & P2 & Wt2).
+  destruct (remlen_step 2 pause s2 (0 + 7 + 7) (0 + a mod 128 * 2 ^ 0 + b mod 128 * 2 ^ (0 + 7)) c _ W2 P2)
+    as [L|(s3 & Po3 & E3)]; [left; exact L|].
+  rewrite E3. clear E3. destruct (N.ltb_spec c 128); [lia|].
+  change (21 <=? 0 + 7 + 7) with false. cbv iota. destruct Po3 as (W3 & C3 & P3 & Wt3).
+  destruct (remlen_step 1 pause s3 (0 + 7 + 7 + 7)
+              (0 + a mod 128 * 2 ^ 0 + b mod 128 * 2 ^ (0 + 7) + c mod 128 * 2 ^ (0 + 7 + 7)) d _ W3 P3)
+    as [L|(s4 & Po4 & E4)]; [left; exact L|].
+  rewrite E4. clear E4. destruct (N.ltb_spec d 128); [lia|].
+  change (21 <=? 0 + 7 + 7 + 7) with true. cbv iota. right. exists s4. reflexivity.
+Qed.
+
+(* ------------------------------------------------------------------ *)
+(* the payload slice: Peek with retry on progress-making expiries       *)
+
+Definition is_big (cap head size : N) : bool := (head / 16 =? 3) && (cap <? size).
+Definition peek_len (cap head size : N) : N := if is_big cap head size then cap else size.
+
+Lemma slice_loop_spec fuel : forall pause s head size lastN,
+  wf s -> peek_len (rcap s) head size <= rcap s -> peek_len (rcap s) head size <= len (pending s) ->
+  (tape_weight (rtape s) < fuel)%nat ->
+  (exists s', slice_loop fuel pause s head size lastN = (PkErr ETimeout false, s'))
+  \/ (exists s',
+        slice_loop fuel pause s head size lastN =
+          ((if is_big (rcap s) head size
+            then PkBig head size (firstn (N.to_nat (peek_len (rcap s) head size)) (pending s))
+            else PkOk head (firstn (N.to_nat (peek_len (rcap s) head size)) (pending s))), s')
+        /\ post s s' (pending s)
+        /\ firstn (N.to_nat (peek_len (rcap s) head size)) (rbuf s')
+           = firstn (N.to_nat (peek_len (rcap s) head size)) (pending s)
+        /\ peek_len (rcap s) head size <= len (rbuf s')).
+Proof.
+  induction fuel as [|f IH]; intros pause s head size lastN W Hn Hp Hf; [lia|].
+  cbn [slice_loop].
+  set (s0 := if (len (rbuf s) <? size) && pause then rst_arm s true else s).
+  assert (P0 : post s s0 (pending s)) by apply (post_arm_if s _ true W).
+  destruct P0 as (W0 & C0 & Pd0 & Wt0).
+  fold (is_big (rcap s0) head size). fold (peek_len (rcap s0) head size).
+  rewrite C0.
+  destruct (peek_spec s0 (peek_len (rcap s) head size) W0 ltac:(lia) ltac:(now rewrite Pd0))
+    as [(s' & E & Po & Ha & Hfn & Hl)|(s' & E & Po & Ha & Hpre & Hl & Hw)]; rewrite E.
+  - right. exists s'. rewrite Pd0 in *. split.
+    { destruct (is_big (rcap s) head size); reflexivity. }
+    split; [|split; assumption].
+    eapply post_trans; [|exact Po]. split; auto.
+  - destruct (N.ltb_spec lastN (len (rbuf s'))) as [Lp|Lp].
+    + destruct Po as (W' & C' & Pd' & Wt').
+      destruct (IH pause s' head size (len (rbuf s')) W') as [(s2 & E2)|(s2 & E2 & Po2 & Hf2 & Hl2)].
+      * rewrite C', C0. exact Hn.
+      * rewrite C', C0, Pd', Pd0. exact Hp.
+      * lia.
+      * left. exists s2. exact E2.
+      * right. exists s2. rewrite C', C0, Pd', Pd0 in *. split; [exact E2|].
+        split; [|split; assumption].
+        eapply post_trans; [|exact Po2]. apply post_intro; try apply W'; try lia; auto.
+    + left. exists s'. reflexivity.
+Qed.
+
+(* ------------------------------------------------------------------ *)
+(* Client.peekPacket                                                   *)
+
+Lemma frame_packet_inv p head body rest :
+  frame_packet p = Some (head, body, rest) ->
+  exists r r', p = head :: r /\ take_remlen r = Some (len body, r') /\ r' = body ++ rest.
+Proof.
+  unfold frame_packet. destruct p as [|h r]; [discriminate|].
+  destruct (take_remlen r) as [[n r']|] eqn:T; [|discriminate].
+  unfold split_at. destruct (Nat.leb_spec (N.to_nat n) (length r')) as [L|L]; [|discriminate].
+  intros E. injection E as <- <- <-. exists r, r'. split; [reflexivity|].
+  split; [|symmetry; apply firstn_skipn].
+  rewrite len_firstn. replace (N.min (N.of_nat (N.to_nat n)) (len r')) with n by (unfold len; lia).
+  exact T.
+Qed.
+
+Lemma bytes_tail x l : bytes (x :: l) -> bytes l.
+Proof. intros H. inversion H; assumption. Qed.
+
+Definition fin_arm (pause : bool) (r : peek_result * rst) : peek_result * rst :=
+  if pause then (fst r, rst_arm (snd r) false) else r.
+
+Lemma peek_packet_unfold pause s :
+  peek_packet pause s =
+  match read_byte s with
+  | (inr EEOF, s') => (PkBrokerTerm, s')
+  | (inr e, s') => (PkErr e false, s')
+  | (inl head, s') =>
+    match remlen_loop 5 pause s' 0 0 with
+    | (inr (e, proto), s'') => fin_arm pause (PkErr e proto, s'')
+    | (inl size, s'') => fin_arm pause (slice_loop (S (tape_weight (rtape s''))) pause s'' head size 0)
+    end
+  end.
+Proof. reflexivity. Qed.
+
+(* The packet at the head of the pending bytes is framed exactly as Spec.frame_packet
+   says, or the call ends in a deadline expiry.  [peek_len] bytes of the body are
+   buffered afterwards (the whole body unless it is a PUBLISH larger than the buffer,
+   then exactly one buffer-load). *)
+Theorem peek_packet_spec pause s head body rest :
+  wf s -> bytes (pending s) ->
+  frame_packet (pending s) = Some (head, body, rest) ->
+  peek_len (rcap s) head (len body) <= rcap s ->
+  (exists s', peek_packet pause s = (PkErr ETimeout false, s'))
+  \/ (exists s',
+        peek_packet pause s =
+          ((if is_big (rcap s) head (len body)
+            then PkBig head (len body) (firstn (N.to_nat (rcap s)) body)
+            else PkOk head body), s')
+        /\ post s s' (body ++ rest)
+        /\ firstn (N.to_nat (peek_len (rcap s) head (len body))) (rbuf s')
+           = firstn (N.to_nat (peek_len (rcap s) head (len body))) body
+        /\ peek_len (rcap s) head (len body) <= len (rbuf s')).
+Proof.
+  intros W Hb F Hn.
+  destruct (frame_packet_inv _ _ _ _ F) as (r & r' & P & T & R).
+  rewrite peek_packet_unfold.
+  destruct (read_byte_spec s head r W P) as [(s1 & E1 & Po1)|(s1 & E1)]; rewrite E1;
+    [|left; exists s1; reflexivity].
+  destruct Po1 as (W1 & C1 & P1 & Wt1).
+  assert (Hb1 : bytes (pending s1)) by (rewrite P1; rewrite P in Hb; eapply bytes_tail; exact Hb).
+  destruct (remlen_spec pause s1 (len body) r' W1 Hb1 ltac:(now rewrite P1))
+    as [(s2 & E2)|(s2 & E2 & Po2)]; rewrite E2.
+  { left. unfold fin_arm. destruct pause; eexists; reflexivity. }
+  destruct Po2 as (W2 & C2 & P2 & Wt2).
+  assert (Hlen : peek_len (rcap s2) head (len body) <= len (pending s2)).
+  { rewrite P2, R, len_app'. unfold peek_len. destruct (is_big _ _ _) eqn:Eb; [|lia].
+    unfold is_big in Eb. apply andb_prop in Eb. destruct Eb as [_ Eb].
+    apply N.ltb_lt in Eb. lia. }
+  destruct (slice_loop_spec (S (tape_weight (rtape s2))) pause s2 head (len body) 0 W2
+              ltac:(rewrite C2, C1; exact Hn) Hlen ltac:(lia))
+    as [(s3 & E3)|(s3 & E3 & Po3 & Hf3 & Hl3)]; rewrite E3.
+  { left. unfold fin_arm. destruct pause; eexists; reflexivity. }
+  right. rewrite C2, C1, P2, R in *.
+  assert (Hfirst : firstn (N.to_nat (peek_len (rcap s) head (len body))) (body ++ rest)
+                   = firstn (N.to_nat (peek_len (rcap s) head (len body))) body).
+  { apply firstn_app_le. unfold peek_len in *. destruct (is_big _ _ _) eqn:Eb.
+    - unfold is_big in Eb. apply andb_prop in Eb. destruct Eb as [_ Eb].
+      apply N.ltb_lt in Eb. unfold len in Eb. lia.
+    - unfold len. lia. }
+  rewrite Hfirst in *.
+  assert (Post : post s s3 (body ++ rest)).
+  { destruct Po3 as (W3 & C3 & P3 & Wt3). pose proof (wf_cap _ W3).
+    apply post_intro; try apply W3; try apply W; try lia; auto. }
+  assert (Res : (if is_big (rcap s) head (len body)
+            then PkBig head (len body) (firstn (N.to_nat (peek_len (rcap s) head (len body))) body)
+            else PkOk head (firstn (N.to_nat (peek_len (rcap s) head (len body))) body))
+          = (if is_big (rcap s) head (len body)
+            then PkBig head (len body) (firstn (N.to_nat (rcap s)) body)
+            else PkOk head body)).
+  { unfold peek_len. destruct (is_big _ _ _); [reflexivity|].
+    f_equal. unfold len. rewrite Nat2N.id. apply firstn_all. }
+  rewrite Res. unfold fin_arm. destruct pause; cbn [fst snd].
+  - exists (rst_arm s3 false). split; [reflexivity|]. split; [apply post_arm_r; exact Post|].
+    simp_st. split; assumption.
+  - exists s3. split; [reflexivity|]. split; [exact Post|]. split; assumption.
+Qed.
+
+(* ------------------------------------------------------------------ *)
+(* list arithmetic                                                     *)
+
+Lemma skipn_skipn' {A} (x y : nat) (l : list A) : skipn x (skipn y l) = skipn (y + x) l.
+Proof.
+  revert l. induction y as [|y IH]; intros l; [reflexivity|].
+  destruct l; [now rewrite !skipn_nil|]. cbn [skipn plus]. apply IH.
+Qed.
+
+Lemma firstn_split {A} (k n : nat) (l : list A) : (k <= n)%nat ->
+  firstn k l ++ firstn (n - k) (skipn k l) = firstn n l.
+Proof.
+  revert n l. induction k as [|k IH]; intros n l H.
+  - cbn. now rewrite Nat.sub_0_r.
+  - destruct n as [|n]; [lia|]. destruct l as [|x l]; [now rewrite skipn_nil, !firstn_nil|].
+    cbn [firstn skipn app Nat.sub]. f_equal. apply IH. lia.
+Qed.
+
+Lemma skipn_pending_buf s (k : nat) : (k <= length (rbuf s))%nat ->
+  skipn k (rbuf s) ++ data (rtape s) = skipn k (pending s).
+Proof. intros. unfold pending. now rewrite skipn_app_le. Qed.
+
+(* ------------------------------------------------------------------ *)
+(* bufio.Reader.Discard                                                *)
+
+Definition dmeasure (s : rst) : nat :=
+  (tape_weight (rtape s) + match rbuf s with [] => 0 | _ => 1 end)%nat.
+
+Lemma bufio_discard_spec fuel : forall s remain done,
+  wf s -> remain <= len (pending s) -> (dmeasure s < fuel)%nat ->
+  (exists s', bufio_discard fuel s remain done = ((done + remain, None), s')
+      /\ post s s' (skipn (N.to_nat remain) (pending s)))
+  \/ (exists s' k, bufio_discard fuel s remain done = ((done + k, Some ETimeout), s')
+      /\ k < remain /\ post s s' (skipn (N.to_nat k) (pending s))
+      /\ (tape_weight (rtape s') < tape_weight (rtape s))%nat).
+Proof.
+  induction fuel as [|f IH]; intros s remain done W Hr Hf; [lia|].
+  pose proof W as [We Wt Wc Wp]. cbn [bufio_discard].
+  destruct (N.eqb_spec remain 0) as [Z|Z].
+  { left. exists s. subst remain. split; [f_equal; f_equal; lia|]. apply post_refl. exact W. }
+  (* one iteration from a state s1 with data in the buffer *)
+  assert (Step : forall s1, wf s1 -> rcap s1 = rcap s -> pending s1 = pending s ->
+            (tape_weight (rtape s1) <= tape_weight (rtape s))%nat ->
+            (tape_weight (rtape s1) < f)%nat ->
+            let skip := N.min (len (rbuf s1)) remain in
+            let s2 := rst_with_buf s1 (skipn (N.to_nat skip) (rbuf s1)) in
+            (exists s', (if remain - skip =? 0 then ((done + skip, None), s2)
+                         else match rerr s2 with
+                              | Some e => ((done + skip, Some (rerror_of e)), rst_with_err s2 None)
+                              | None => bufio_discard f s2 (remain - skip) (done + skip)
+                              end) = ((done + remain, None), s')
+                /\ post s s' (skipn (N.to_nat remain) (pending s)))
+            \/ (exists s' k, (if remain - skip =? 0 then ((done + skip, None), s2)
+                         else match rerr s2 with
+                              | Some e => ((done + skip, Some (rerror_of e)), rst_with_err s2 None)
+                              | None => bufio_discard f s2 (remain - skip) (done + skip)
+                              end) = ((done + k, Some ETimeout), s')
+                /\ k < remain /\ post s s' (skipn (N.to_nat k) (pending s))
+                /\ (tape_weight (rtape s') < tape_weight (rtape s))%nat)).
+  { intros s1 W1 C1 P1 Wt1 Hf1 skip s2.
+    assert (Hskip : (N.to_nat skip <= length (rbuf s1))%nat) by (unfold skip, len; lia).
+    assert (W2 : wf s2).
+    { destruct W1 as [We1 Wtp1 Wc1 Wp1]. split; unfold s2; simp_st; auto.
+      rewrite len_skipn. lia. }
+    assert (P2 : pending s2 = skipn (N.to_nat skip) (pending s)).
+    { rewrite <- P1. unfold s2. unfold pending at 1. simp_st. apply skipn_pending_buf. exact Hskip. }
+    assert (Po2 : post s s2 (skipn (N.to_nat skip) (pending s))).
+    { split; [exact W2|]. split; [exact C1|]. split; [exact P2|exact Wt1]. }
+    destruct (N.eqb_spec (remain - skip) 0) as [Z2|Z2].
+    - left. exists s2. assert (skip = remain) by lia. split; [congruence|]. rewrite <- H. exact Po2.
+    - rewrite (wf_err _ W2).
+      assert (Hsk : skip = len (rbuf s1)) by lia.
+      assert (Hb2 : rbuf s2 = []).
+      { unfold s2. simp_st. rewrite Hsk. unfold len. rewrite Nat2N.id. apply skipn_all. }
+      destruct (IH s2 (remain - skip) (done + skip) W2) as [(s' & E & Po)|(s' & k & E & Hk & Po & Hw)].
+      + rewrite P2, len_skipn. lia.
+      + unfold dmeasure. rewrite Hb2. unfold s2. simp_st. lia.
+      + left. exists s'. split; [rewrite E; f_equal; f_equal; lia|].
+        eapply post_trans; [exact Po2|]. rewrite P2, skipn_skipn' in Po.
+        replace (N.to_nat remain) with (N.to_nat skip + N.to_nat (remain - skip))%nat by lia. exact Po.
+      + right. exists s', (skip + k). split; [rewrite E; f_equal; f_equal; lia|].
+        split; [lia|]. split.
+        * eapply post_trans; [exact Po2|]. rewrite P2, skipn_skipn' in Po.
+          replace (N.to_nat (skip + k)) with (N.to_nat skip + N.to_nat k)%nat by lia. exact Po.
+        * unfold s2 in Hw. simp_st. cbn [rst_with_buf rtape] in Hw. lia. }
+  destruct (rbuf s) as [|x xs] eqn:Eb.
+  - pose proof (fill_spec s W) as H. rewrite Eb in H. specialize (H Wp).
+    destruct (fill s) as [s1|].
+    + destruct H as (Hc & Ha & Hg & Hw & Hpd & [(He & (y & ys & Hb) & Hl)|(He & Hb)]).
+      * assert (W1 : wf s1) by (split; auto; lia).
+        unfold dmeasure in Hf. rewrite Eb in Hf.
+        destruct (Step s1 W1 Hc Hpd ltac:(lia) ltac:(lia)) as [L|(s' & k & E & R)].
+        -- left. exact L.
+        -- right. exists s', k. split; [exact E|]. splits; apply R.
+      * (* the expiry arrives with an empty buffer: nothing discarded *)
+        right. rewrite Hb. change (len []) with 0. replace (N.min 0 remain) with 0 by lia.
+        cbn [N.to_nat skipn]. replace (remain - 0 =? 0) with false by (symmetry; apply N.eqb_neq; lia).
+        cbn [rst_with_buf rerr]. rewrite He. cbn [rerror_of].
+        eexists. exists 0. split; [reflexivity|]. split; [lia|]. split.
+        -- cbn [N.to_nat skipn]. apply post_intro; simp_st; auto; try lia.
+           unfold pending at 1. simp_st. rewrite <- Hpd. unfold pending. rewrite Hb. reflexivity.
+        -- simp_st. lia.
+    + exfalso. unfold pending in Hr. rewrite Eb, H in Hr. cbn in Hr. lia.
+  - unfold dmeasure in Hf. rewrite Eb in Hf. rewrite <- Eb in *.
+    destruct (Step s W eq_refl eq_refl ltac:(lia) ltac:(lia)) as [L|(s' & k & E & R)].
+    + left. exact L.
+    + right. exists s', k. split; [exact E|]. splits; apply R.
+Qed.
+
+(* Client.discard *)
+Lemma discard_loop_spec fuel : forall pause s n,
+  wf s -> n <= len (pending s) -> (tape_weight (rtape s) < fuel)%nat ->
+  (exists s', discard_loop fuel pause s n = (Some ETimeout, s'))
+  \/ (exists s', discard_loop fuel pause s n = (None, s')
+        /\ post s s' (skipn (N.to_nat n) (pending s))).
+Proof.
+  induction fuel as [|f IH]; intros pause s n W Hn Hf; [lia|].
+  cbn [discard_loop].
+  set (s0 := if pause then rst_arm s true else s).
+  assert (P0 : post s s0 (pending s)) by apply (post_arm_if s _ true W).
+  destruct P0 as (W0 & C0 & Pd0 & Wt0).
+  assert (T0 : rtape s0 = rtape s) by (unfold s0; destruct pause; reflexivity).
+  destruct (bufio_discard_spec (S (S (tape_weight (rtape s0)))) s0 n 0 W0 ltac:(now rewrite Pd0))
+    as [(s' & E & Po)|(s' & k & E & Hk & Po & Hw)].
+  - unfold dmeasure. destruct (rbuf s0); lia.
+  - rewrite E. right. exists s'. split; [reflexivity|]. rewrite Pd0 in Po.
+    eapply post_trans; [|exact Po]. split; auto.
+  - change (0 + k) with k in E. rewrite E. destruct (N.eqb_spec k 0) as [Z|Z].
+    + left. exists s'. reflexivity.
+    + rewrite Pd0 in Po. destruct Po as (W' & C' & P' & Wt').
+      destruct (IH pause s' (n - k) W') as [(s2 & E2)|(s2 & E2 & Po2)].
+      * rewrite P', len_skipn. lia.
+      * rewrite T0 in Hw. lia.
+      * left. exists s2. exact E2.
+      * right. exists s2. split; [exact E2|].
+        rewrite P', skipn_skipn' in Po2.
+        replace (N.to_nat k + N.to_nat (n - k))%nat with (N.to_nat n) in Po2 by lia.
+        eapply post_trans; [|exact Po2]. apply post_intro; try apply W'; try apply W; auto; try lia.
+        pose proof (wf_cap _ W'). lia.
+Qed.
+
+Theorem client_discard_spec pause s n : wf s -> n <= len (pending s) ->
+  (exists s', client_discard pause s n = (Some ETimeout, s'))
+  \/ (exists s', client_discard pause s n = (None, s')
+        /\ post s s' (skipn (N.to_nat n) (pending s))).
+Proof.
+  intros W Hn. unfold client_discard.
+  destruct (discard_loop_spec (S (tape_weight (rtape s))) pause s n W Hn ltac:(lia))
+    as [(s' & E)|(s' & E & Po)]; rewrite E; cbn [fst snd].
+  - left. destruct pause; eexists; reflexivity.
+  - right. destruct pause; eexists; (split; [reflexivity|]); [apply post_arm_r|]; exact Po.
+Qed.
+
+(* Discard of bytes that are buffered (the previous packet body): never reads *)
+Lemma bufio_discard_buffered fuel s n done : wf s -> n <= len (rbuf s) ->
+  exists s', bufio_discard (S fuel) s n done = ((done + n, None), s')
+    /\ post s s' (skipn (N.to_nat n) (pending s))
+    /\ rtape s' = rtape s /\ rlog s' = rlog s /\ rarmed s' = rarmed s
+    /\ rbuf s' = skipn (N.to_nat n) (rbuf s).
+Proof.
+  intros W Hn. cbn [bufio_discard]. destruct (N.eqb_spec n 0) as [Z|Z].
+  { subst n. exists s. split; [f_equal; f_equal; lia|]. split; [apply post_refl; exact W|].
+    splits; reflexivity. }
+  destruct (rbuf s) as [|x xs] eqn:Eb; [change (len []) with 0 in Hn; lia|].
+  rewrite <- Eb in *. replace (N.min (len (rbuf s)) n) with n by lia.
+  rewrite N.sub_diag. cbn [N.eqb]. eexists. split; [reflexivity|].
+  assert (Hk : (N.to_nat n <= length (rbuf s))%nat) by (unfold len in Hn; lia).
+  split; [|simp_st; splits; reflexivity].
+  destruct W as [We Wt Wc Wp]. apply post_intro; simp_st; auto.
+  - rewrite len_skipn. lia.
+  - unfold pending at 1. simp_st. apply skipn_pending_buf. exact Hk.
+Qed.
+
+(* ------------------------------------------------------------------ *)
+(* bufio.Reader.Read and BigMessage.ReadAll                            *)
+
+Lemma firstn_pending_buf s (k : nat) : (k <= length (rbuf s))%nat ->
+  firstn k (rbuf s) = firstn k (pending s).
+Proof. intros. unfold pending. now rewrite firstn_app_le. Qed.
+
+Lemma bufio_read_spec s want : wf s -> 0 < want -> want <= len (pending s) ->
+  (exists s', bufio_read s want = (([], Some ETimeout), s'))
+  \/ (exists s' k, bufio_read s want = ((firstn k (pending s), None), s')
+        /\ (0 < k)%nat /\ N.of_nat k <= want
+        /\ post s s' (skipn k (pending s))
+        /\ (rbuf s' = [] \/ N.of_nat k = want)
+        /\ (rbuf s = [] -> (tape_weight (rtape s') < tape_weight (rtape s))%nat)).
+Proof.
+  intros W Hw Hp. pose proof W as [We Wt Wc Wp]. unfold bufio_read.
+  destruct (rbuf s) as [|x xs] eqn:Eb.
+  - rewrite We.
+    assert (Conn : forall n, 0 < n ->
+      match conn_read s n with
+      | None => False
+      | Some (a, s') =>
+        rbuf s' = [] /\ rerr s' = None /\ rcap s' = rcap s /\ good_tape (rtape s') /\
+        (tape_weight (rtape s') < tape_weight (rtape s))%nat /\
+        ((exists b bs, a = RData (b :: bs) /\ len (b :: bs) <= n /\ pending s = (b :: bs) ++ data (rtape s'))
+         \/ (a = RTimeout))
+      end).
+    { intros n Hn. pose proof (conn_read_spec s n Wt Hn) as H.
+      destruct (conn_read s n) as [[a s']|].
+      - destruct H as (Hb & He & Hc & Ha & Hg & Hwt & Hd & Hk).
+        rewrite Hb, He, Eb, We. splits; auto.
+        destruct Hk as [(b & bs & -> & Hl)| ->]; [left|right; reflexivity].
+        exists b, bs. splits; auto. unfold pending. rewrite Eb, Hd. reflexivity.
+      - unfold pending in Hp. rewrite Eb, H in Hp. cbn in Hp. lia. }
+    destruct (N.leb_spec (rcap s) want) as [Lg|Lg].
+    + specialize (Conn want Hw). destruct (conn_read s want) as [[a s']|]; [|contradiction].
+      destruct Conn as (Hb & He & Hc & Hg & Hwt & [(b & bs & -> & Hl & Hpd)| ->]).
+      * right. exists s', (length (b :: bs)). rewrite Hpd.
+        rewrite firstn_app_le, firstn_all by lia. split; [reflexivity|].
+        split; [cbn [length]; lia|]. split; [exact Hl|]. split.
+        { apply post_intro; auto; try lia.
+          - rewrite Hb. change (len []) with 0. lia.
+          - unfold pending. rewrite Hb. rewrite skipn_app_le, skipn_all by lia. reflexivity. }
+        split; [left; exact Hb|]. intros _. exact Hwt.
+      * left. exists s'. reflexivity.
+    + specialize (Conn (rcap s) Wp). destruct (conn_read s (rcap s)) as [[a s']|]; [|contradiction].
+      destruct Conn as (Hb & He & Hc & Hg & Hwt & [(b & bs & -> & Hl & Hpd)| ->]).
+      * right. set (k := N.to_nat (N.min want (len (b :: bs)))).
+        assert (Hk : (k <= length (b :: bs))%nat) by (unfold k, len; lia).
+        exists (rst_with_buf s' (skipn k (b :: bs))), k. rewrite Hpd.
+        rewrite firstn_app_le by exact Hk. split; [reflexivity|].
+        split; [unfold k, len; cbn [length]; lia|]. split; [unfold k; lia|]. split.
+        { apply post_intro; simp_st; auto; try lia.
+          - rewrite len_skipn. lia.
+          - unfold pending. simp_st. now rewrite skipn_app_le. }
+        split; [|intros _; simp_st; exact Hwt].
+        simp_st. destruct (N.le_gt_cases (len (b :: bs)) want) as [Le|Le].
+        -- left. replace k with (length (b :: bs)) by (unfold len in Le; unfold k, len; lia). apply skipn_all.
+        -- right. unfold k. lia.
+      * left. exists s'. reflexivity.
+  - right. rewrite <- Eb in *. set (k := N.to_nat (N.min want (len (rbuf s)))).
+    assert (Hk : (k <= length (rbuf s))%nat) by (unfold k, len; lia).
+    exists (rst_with_buf s (skipn k (rbuf s))), k.
+    rewrite (firstn_pending_buf s k Hk). split; [reflexivity|].
+    split; [unfold k, len; rewrite Eb; cbn [length]; lia|]. split; [unfold k; lia|]. split.
+    { apply post_intro; simp_st; auto.
+      - rewrite len_skipn. lia.
+      - unfold pending at 1. simp_st. apply skipn_pending_buf. exact Hk. }
+    split; [|intros E0; rewrite E0 in Eb; discriminate].
+    simp_st. destruct (N.le_gt_cases (len (rbuf s)) want) as [Le|Le].
+    + left. replace k with (length (rbuf s)) by (unfold len in Le; unfold k, len; lia). apply skipn_all.
+    + right. unfold k. lia.
+Qed.
+
+Definition rmeasure (s : rst) (remain : N) : nat :=
+  (tape_weight (rtape s) +
+   match rbuf s with [] => 0 | _ => if N.eqb remain 0 then 0 else 1 end)%nat.
+
+Lemma read_all_loop_spec fuel : forall pause s remain acc,
+  wf s -> remain <= len (pending s) -> (rmeasure s remain < fuel)%nat ->
+  (exists s', read_all_loop fuel pause s remain acc = (inr ETimeout, s'))
+  \/ (exists s', read_all_loop fuel pause s remain acc
+                  = (inl (acc ++ firstn (N.to_nat remain) (pending s)), s')
+        /\ post s s' (skipn (N.to_nat remain) (pending s))).
+Proof.
+  induction fuel as [|f IH]; intros pause s remain acc W Hr Hf; [lia|].
+  cbn [read_all_loop]. destruct (N.eqb_spec remain 0) as [Z|Z].
+  { right. exists s. subst remain. cbn [N.to_nat firstn skipn]. rewrite app_nil_r.
+    split; [reflexivity|apply post_refl; exact W]. }
+  set (s0 := if (len (rbuf s) =? 0) && pause then rst_arm s true else s).
+  assert (P0 : post s s0 (pending s)) by apply (post_arm_if s _ true W).
+  destruct P0 as (W0 & C0 & Pd0 & Wt0).
+  assert (T0 : rtape s0 = rtape s) by (unfold s0; destruct (_ && _); reflexivity).
+  assert (B0 : rbuf s0 = rbuf s) by (unfold s0; destruct (_ && _); reflexivity).
+  destruct (bufio_read_spec s0 remain W0 ltac:(lia) ltac:(now rewrite Pd0))
+    as [(s' & E)|(s' & k & E & Hk0 & Hk & Po & Hor & Hw)]; rewrite E.
+  - left. change (len []) with 0. replace (remain - 0 =? 0) with false by (symmetry; apply N.eqb_neq; lia).
+    exists s'. reflexivity.
+  - rewrite Pd0 in *. destruct Po as (W' & C' & P' & Wt').
+    assert (Hlen : len (firstn k (pending s)) = N.of_nat k) by (rewrite len_firstn; lia).
+    rewrite Hlen.
+    destruct (IH pause s' (remain - N.of_nat k) (acc ++ firstn k (pending s)) W')
+      as [(s2 & E2)|(s2 & E2 & Po2)].
+    + rewrite P', len_skipn. lia.
+    + unfold rmeasure in *. rewrite T0, B0 in *.
+      replace (remain =? 0) with false in Hf by (symmetry; apply N.eqb_neq; lia).
+      destruct Hor as [Hb'|Hkw].
+      * rewrite Hb'. destruct (rbuf s) eqn:Eb; [specialize (Hw eq_refl)|]; lia.
+      * replace (remain - N.of_nat k =? 0) with true by (symmetry; apply N.eqb_eq; lia).
+        destruct (rbuf s) eqn:Eb; [specialize (Hw eq_refl)|]; destruct (rbuf s'); lia.
+    + left. exists s2. exact E2.
+    + right. exists s2. rewrite P' in *. split.
+      * rewrite E2. f_equal. f_equal. rewrite <- app_assoc. f_equal.
+        replace (N.to_nat (remain - N.of_nat k)) with (N.to_nat remain - k)%nat by lia.
+        apply firstn_split. lia.
+      * rewrite skipn_skipn' in Po2.
+        replace (k + N.to_nat (remain - N.of_nat k))%nat with (N.to_nat remain) in Po2 by lia.
+        eapply post_trans; [|exact Po2]. apply post_intro; try apply W'; try apply W; auto; try lia.
+        pose proof (wf_cap _ W'). lia.
+Qed.
+
+Theorem read_all_spec pause s size : wf s -> size <= len (pending s) ->
+  (exists s', read_all pause s size = (inr ETimeout, s'))
+  \/ (exists s', read_all pause s size = (inl (firstn (N.to_nat size) (pending s)), s')
+        /\ post s s' (skipn (N.to_nat size) (pending s))).
+Proof.
+  intros W Hs. unfold read_all.
+  destruct (read_all_loop_spec (S (S (tape_weight (rtape s)))) pause s size [] W Hs)
+    as [(s' & E)|(s' & E & Po)].
+  - unfold rmeasure. destruct (rbuf s); [lia|]. destruct (size =? 0); lia.
+  - rewrite E. left. destruct pause; eexists; reflexivity.
+  - rewrite E. cbn [app fst snd]. right.
+    destruct pause; eexists; (split; [reflexivity|]); [apply post_arm_r|]; exact Po.
+Qed.
